@@ -105,6 +105,7 @@ type Frame struct {
 	callStack []string
 	resultNames []string
 	resultTypes []types.Type
+	defers   []deferred
 	recMeasure []T // entry value of the top-level function's recursion measure (function-level `decreases`)
 	frameHook func(cur *Frame, lv *LV, addr ssa.Value, pos token.Pos)
 	frameMapHook func(cur *Frame, mv ssa.Value, m T, mt *types.Map, pos token.Pos)
@@ -907,10 +908,23 @@ func (f *Frame) backEdge(from, h *ssa.BasicBlock, ep T) {
 	if !pos.IsValid() {
 		pos = h.Instrs[0].Pos()
 	}
+	// the block that closes the loop often joins the paths of the body (if / else): prove the invariant per joined path
+	var splits [][]T
+	if n := len(from.Preds); n >= 2 && n <= 4 && f.loops[from] == nil {
+		for _, p := range from.Preds {
+			if ep, ok := f.edgePred[[2]int{p.Index, from.Index}]; ok {
+				splits = append(splits, []T{ep})
+			}
+		}
+		if len(splits) != n {
+			splits = nil
+		}
+	}
 	for k, inv := range li.spec.Invs {
 		tr := f.translator(from, env, f.st, li)
 		c := tr.boolExpr(inv.Expr)
 		o := f.obligeNamed("inv", fmt.Sprintf("loop%d.%s@back.%s", li.ordinal, clauseName(inv, k), tag), token.NoPos, c, inv.Props)
+		o.Splits = splits
 		f.addUses(o, li.spec.Uses, tr)
 		f.unassumeLast()
 	}
